@@ -525,11 +525,11 @@ func judgeStateImage(img string, accept [][2]interface{}) (string, string) {
 // ---------------------------------------------------------------- snapshot workload
 
 type SnapOp struct {
-	Kind   string // new write close discard get reopen
-	Index  uint64
-	Term   uint64
-	Cfg    []byte
-	Data   []byte
+	Kind  string // new write close discard get reopen
+	Index uint64
+	Term  uint64
+	Cfg   []byte
+	Data  []byte
 }
 
 type SnapRec struct {
@@ -563,6 +563,13 @@ func GenSnap(seed int64, nSnaps int) []SnapOp {
 			r.Read(d)
 			ops = append(ops, SnapOp{Kind: "write", Data: d})
 			total -= n
+			if r.Intn(4) == 0 {
+				// look-up while this writer is still open: must not see the unfinished snapshot
+				ops = append(ops, SnapOp{Kind: "get"})
+			}
+		}
+		if r.Intn(4) == 0 {
+			ops = append(ops, SnapOp{Kind: "get"})
 		}
 		if r.Intn(5) == 0 {
 			ops = append(ops, SnapOp{Kind: "discard"})
@@ -602,24 +609,42 @@ func workSnap(mk marker, seed int64, dir string, n int) int {
 	}
 	mk.mark("END 0 ok")
 	var f raft.SnapshotFile
+	var cur, w *SnapRec // the child's own model: newest closed snapshot, snapshot being written
 	for i, op := range ops {
 		k := i + 1
 		mk.mark("BEGIN %d %s", k, op.Kind)
 		switch op.Kind {
 		case "new":
 			f, err = st.NewSnapshotFile(op.Index, op.Term, op.Cfg)
+			w = &SnapRec{Index: op.Index, Term: op.Term, Cfg: op.Cfg}
 		case "write":
 			_, err = f.Write(op.Data)
+			w.Data = append(w.Data, op.Data...)
 		case "close":
 			err = f.Close()
+			cur, w = w, nil
 		case "discard":
 			err = f.Discard()
+			w = nil
 		case "get":
 			var g raft.SnapshotFile
 			g, err = st.SnapshotFile()
+			var got *SnapRec
 			if err == nil && g != nil {
-				_, err = io.ReadAll(g)
+				var data []byte
+				data, err = io.ReadAll(g)
+				md := g.Metadata()
+				got = &SnapRec{Index: md.LastIncludedIndex, Term: md.LastIncludedTerm, Cfg: md.Configuration, Data: data}
 				g.Close()
+			}
+			// no crash involved: the look-up must return exactly the newest CLOSED snapshot
+			if err == nil {
+				switch {
+				case (got == nil) != (cur == nil):
+					err = fmt.Errorf("SnapshotFile() returned %v, newest closed snapshot is %v (a writer is open: %v)", got != nil, cur != nil, w != nil)
+				case got != nil && (got.Index != cur.Index || got.Term != cur.Term || !bytes.Equal(got.Data, cur.Data)):
+					err = fmt.Errorf("SnapshotFile() returned (index %d, %d bytes), newest closed snapshot is (index %d, %d bytes); a writer is open: %v", got.Index, len(got.Data), cur.Index, len(cur.Data), w != nil)
+				}
 			}
 		case "reopen":
 			st, err = raft.NewSnapshotStorage(dir)
